@@ -374,7 +374,7 @@ def rx_9(ctx, rep):
         for n in walk_own(g.node):
             if isinstance(n, ast.Call) and isinstance(n.func, ast.Attribute) and n.func.attr in ('lstrip', 'rstrip', 'strip') \
                     and len(n.args) == 1 and isinstance(n.args[0], ast.Constant) and isinstance(n.args[0].value, str) \
-                    and n.args[0].value.strip() != n.args[0].value:
+                    and n.args[0].value.strip() != n.args[0].value and _strip_feeds_position(g, n):
                 n_strip += 1
                 chars = n.args[0].value
                 d = rx.equivalent(nws, rx.compile_nfa('[%s]*' % ''.join(_re.escape(c) for c in sorted(set(chars)))))
@@ -387,6 +387,25 @@ def rx_9(ctx, rep):
     w = rx.included(nws, rx.compile_nfa('(?:%s|%s)*' % (sp_, ff)))
     rep.ob('RX-9', PREFIX, '<module>', '_spacing | _form_feed covers Whitespace', w is None,
            'tokenizer whitespace that the prefix splitter cannot classify', witness=w)
+
+
+def _strip_feeds_position(g, call):
+    """The stripped string decides a length / position / token boundary (len(), slicing, startswith), i.e. it is
+    not a mere truthiness test such as `if not line.strip(...)`."""
+    p = getattr(call, '_parent', None)
+    names = set()
+    if isinstance(p, ast.Assign):
+        names = {t.id for t in p.targets if isinstance(t, ast.Name)}
+    elif isinstance(p, ast.Call) and norm(p.func) == 'len':
+        return True
+    elif isinstance(p, ast.Attribute) and p.attr in ('startswith', 'endswith'):
+        return True
+    for n in walk_own(g.node):
+        if isinstance(n, ast.Call) and norm(n.func) == 'len' and n.args and isinstance(n.args[0], ast.Name) and n.args[0].id in names:
+            return True
+        if isinstance(n, ast.Attribute) and n.attr in ('startswith', 'endswith') and isinstance(n.value, ast.Name) and n.value.id in names:
+            return True
+    return False
 
 
 # ---------------------------------------------------------------------------
@@ -890,3 +909,67 @@ def rx_10(ctx, rep, modules=None):
                        "line breaks are recognised by %s only: text with the other newline style gets different "
                        "positions / parts" % ("'\\n'" if kind == 'n' else "'\\r'"))
     rep.minimum('RX-10', 10 if modules is None else 1)
+
+
+# ---------------------------------------------------------------------------
+# RX-5c : the declared codec name is normalised exactly like CPython's _get_normal_name
+# ---------------------------------------------------------------------------
+def _string_constants(fn_node):
+    out = set()
+    for n in ast.walk(fn_node):
+        if isinstance(n, ast.Constant) and isinstance(n.value, str) and n.value and n is not getattr(fn_node.body[0], 'value', None):
+            out.add(n.value)
+    return out
+
+
+def rx_5c(ctx, rep):
+    rep.rule('RX-5c', 'the codec name taken from a coding declaration is normalised exactly like the reference '
+                      '_get_normal_name of Lib/tokenize.py (agreement of the two pure functions on every probe name '
+                      'built from the literals either of them mentions)')
+    from ..fold import Closure
+    f = ctx.prog.func(UTILS, 'python_bytes_to_unicode.detect_encoding')
+    # which function is applied to the matched name on the declaration path?
+    normaliser = None
+    direct = False
+    for n in walk_own(f.node):
+        if isinstance(n, ast.Return) and n.value is not None:
+            v = n.value
+            if isinstance(v, ast.Call) and isinstance(v.func, ast.Name) and len(v.args) == 1 and isinstance(v.args[0], ast.Name):
+                target = ctx.prog.resolve_global(f.mod, v.func.id)
+                from ..model import Func as _F
+                if isinstance(target, _F):
+                    normaliser = target
+            elif isinstance(v, ast.Name) and v.id not in ('encoding',):
+                direct = True
+    refs = ctx.reference_versions()
+    lib = refs[-1][1]
+    ref_folder = ctx.reference_folder(lib, 'tokenize.py')
+    ref_fn = ref_folder.get('_get_normal_name')
+    if not isinstance(ref_fn, Closure):
+        raise AnalysisError('reference _get_normal_name does not fold')
+    lits = _string_constants(ref_fn.node)
+    mine = None
+    if normaliser is not None:
+        lits |= _string_constants(normaliser.node)
+        mine = ctx.folder(UTILS)
+    probes = set()
+    for L in lits:
+        for p in (L, L + 'x', L + '-x', L + '0', L + '5', L.rstrip('-'), L.rstrip('-') + '_x', L.upper(), L.replace('-', '_'),
+                  'x' + L, L[:-1], L + '-abcdefghijklm', L.rstrip('-') + '-sig', L.title()):
+            if p:
+                probes.add(p)
+    probes |= {'ascii', 'cp1252', 'utf-16', 'utf8', 'latin1', 'iso8859-15', 'latin-9', 'UTF-8', 'utf_8_sig'}
+    bad = None
+    n_eval = 0
+    for p in sorted(probes):
+        want = ref_folder.call_function('_get_normal_name', p)
+        got = mine.call_function(normaliser.name, p) if mine is not None else p
+        n_eval += 1
+        if want != got:
+            bad = (p, want, got)
+            break
+    rep.stat('rx5c_probe_names', n_eval)
+    rep.ob('RX-5c', UTILS, f.qual, 'codec name normalisation (%s)' % (normaliser.qual if normaliser else 'none: the matched name is used verbatim'),
+           bad is None,
+           'for the declared name %r CPython decodes with %r, parso with %r' % bad if bad else '',
+           witness=bad[0] if bad else None)
